@@ -72,7 +72,6 @@ def _neg_sqrt(p):
 
 def _atom_relations(p):
     """Apply sqrt(x)^2 -> x, fabs(x)^2 -> x^2, sin(x)^2 -> 1 - cos(x)^2 (exponents >= 2, positive only)."""
-    p = _neg_sqrt(p)
     guard = 0
     while True:
         guard += 1
